@@ -49,10 +49,19 @@ Proof. exact dec_bad_header. Qed.
 Print Assumptions c02_bad_header.
 
 (* the code-shaped walker decodes as specified, for the fragment stated in Refine.v *)
-Theorem c02_walker_des_refines_partial : forall t bytes, wf_ty t = true -> walk_fragment t = true ->
+Theorem c02_walker_des_refines_partial : forall P t bits, prims_ok P -> walk_fragment t = true -> length bits mod 8 = 0 ->
+  walk_des P t bits = des_spec t bits.
+Proof. exact walk_des_refines_prims. Qed.
+Print Assumptions c02_walker_des_refines_partial.
+
+Theorem c02_walker_des_refines_bytes_partial : forall t bytes, walk_fragment t = true ->
   walk_des_obs t bytes = des_spec t (bits_of_bytes bytes).
 Proof. exact walk_des_refines_partial. Qed.
-Print Assumptions c02_walker_des_refines_partial.
+Print Assumptions c02_walker_des_refines_bytes_partial.
+
+Example c02_fragment_inhabited :
+  walk_fragment (TComp true [TPrim (PU 13 false); TVar (TPrim PBool) 9; TFix (TPrim (PF 16 true)) 3] (Some 128)) = true.
+Proof. reflexivity. Qed.
 
 (* finding F-PY-DES-ASSERT: the quirk-faithful model of the generated Python deserializer (assert consumed <= max bit length of
    the type) refuses an input the specification accepts *)
